@@ -415,6 +415,26 @@ class ExprMixin:
             return Bytes([(("unknown", "mult"), Unknown(ty="int"))], x.kind)
         return None
 
+    def concrete_bytes(self, v, st):
+        """python bytes when a bytes-like abstract value is fully known, else None"""
+        if isinstance(v, Const) and isinstance(v.v, (bytes, bytearray)):
+            return bytes(v.v)
+        if isinstance(v, Bytes):
+            out = b""
+            for tag, _ln in v.parts:
+                if tag[0] != "const":
+                    return None
+                out += tag[1]
+            return out
+        if isinstance(v, Ref) and v.kind == "bytearray":
+            cell = st.heap[v.ident]
+            if cell.opaque:
+                return None
+            cs = [const_of(norm(i)) for i in cell.items]
+            if all(isinstance(c, int) and 0 <= c <= 255 for c in cs):
+                return bytes(cs)
+        return None
+
     # ------------------------------------------------------------- compare
     def ev_Compare(self, e, st, fr):
         out = []
@@ -469,6 +489,9 @@ class ExprMixin:
                 return None
         if t in (ast.Eq, ast.NotEq):
             r = None
+            ca, cb = self.concrete_bytes(a, st), self.concrete_bytes(b, st)
+            if ca is not None and cb is not None:
+                return (ca == cb) if t is ast.Eq else (ca != cb)
             if isinstance(a, Const) and a.v is None and isinstance(b, (BitV, Bytes, Lin, Ref, Seq)):
                 r = False
             if isinstance(b, Const) and b.v is None and isinstance(a, (BitV, Bytes, Lin, Ref, Seq)):
